@@ -1,14 +1,28 @@
 // C19 stand-in for the pybind11 names used by molli_xt/distance.cpp and _molli_xt.hpp.
 // pybind11 is not installed on this image; this header lets the UNMODIFIED repository source be
-// compiled into a plain executable (c19_harness.cpp) under ASan/UBSan/TSan.  It models exactly:
-//   py::array_t<T, flags>  (C-contiguous, exact-size malloc buffer so sanitizer red zones are adjacent;
-//                           shape(i), unchecked<N>(), mutable_unchecked<N>() without any bounds check)
-//   py::array::c_style / forcecast, py::ssize_t, py::gil_scoped_release, py::module_::def(name, f, doc...)
+// compiled into a plain executable (c19_harness.cpp) under ASan/UBSan/TSan.  It models:
+//   py::array_t<T, Flags>  shape AND byte strides over an exact-size malloc buffer (so sanitizer red zones are
+//                          adjacent to the data); array_t(shape) makes C strides, or Fortran strides when Flags has
+//                          f_style (as pybind11's constructor does); shape(i), strides(i), data(), mutable_data(),
+//                          unchecked<N>() / mutable_unchecked<N>() index through the strides without any bounds
+//                          check (as pybind11's proxies do); data(i, j, ...) / at(i, j, ...) go through the strides
+//                          WITH pybind11's bounds check (index_error)
+//   the CALL BOUNDARY      array_t<T, Flags>::ensure(src) is what pybind11's type caster does for an ndarray whose
+//                          dtype is already T (PyArray_FromAny(src, dtype, 0, 0, ENSUREARRAY | Flags)): if Flags has
+//                          c_style and src is not C-contiguous (numpy's definition: extent-1 axes and empty arrays
+//                          do not count) the kernel gets a fresh C-ordered copy; likewise f_style / Fortran; otherwise
+//                          the kernel gets the caller's array itself, same buffer, same strides
+//   py::module_::def       accepts a kernel R(*)(A, B) whose argument / return types are array_t<T, ANY flags>
+//                          (by value or by const reference) and records name, element type, the three flag words and
+//                          a callable that performs the conversion above and then calls the kernel
+//   py::array::c_style / f_style / forcecast, py::ssize_t, py::gil_scoped_release, py::index_error
 #pragma once
 #include <sys/types.h>
 #include <cstdlib>
+#include <functional>
 #include <map>
 #include <memory>
+#include <stdexcept>
 #include <string>
 #include <type_traits>
 #include <utility>
@@ -22,38 +36,128 @@ inline thread_local int gil_released = 0;    // >0 while a gil_scoped_release is
 inline thread_local long alloc_without_gil = 0;
 }
 
+struct index_error : std::runtime_error { using std::runtime_error::runtime_error; };
+
 struct array { enum { c_style = 1, f_style = 2, forcecast = 16 }; };
 
-template <typename T, ssize_t N, bool Mutable> struct unchecked_ref {
-    T *p; ssize_t dim[N > 0 ? N : 1];
+template <typename T, ssize_t N, bool Mutable> struct unchecked_ref {   // T is const-qualified for the read-only proxy
+    using byte = std::conditional_t<Mutable, unsigned char, const unsigned char>;
+    byte *p; ssize_t dim[N > 0 ? N : 1], str[N > 0 ? N : 1];            // str in bytes
     template <typename... Ix> ssize_t off(Ix... ix) const {
         static_assert(sizeof...(Ix) == N, "index count"); ssize_t idx[] = {ssize_t(ix)...}, o = 0;
-        for (ssize_t k = 0; k < N; ++k) o = o * dim[k] + idx[k];
+        for (ssize_t k = 0; k < N; ++k) o += idx[k] * str[k];
         return o; }
-    template <typename... Ix> const T *data(Ix... ix) const { return p + off(ix...); }
-    template <typename... Ix> std::conditional_t<Mutable, T &, const T &> operator()(Ix... ix) const { return p[off(ix...)]; }
-    template <typename... Ix> T *mutable_data(Ix... ix) const { static_assert(Mutable, "read-only"); return p + off(ix...); }
+    template <typename... Ix> const T *data(Ix... ix) const { return reinterpret_cast<const T *>(p + off(ix...)); }
+    template <typename... Ix> std::conditional_t<Mutable, T &, const T &> operator()(Ix... ix) const {
+        return *reinterpret_cast<T *>(p + off(ix...)); }
+    template <typename... Ix> T *mutable_data(Ix... ix) const {
+        static_assert(Mutable, "read-only"); return reinterpret_cast<T *>(p + off(ix...)); }
     ssize_t shape(ssize_t i) const { return dim[i]; }
+    ssize_t ndim() const { return N; }
 };
 
-template <typename T, int Flags = array::forcecast> class array_t {
-    std::vector<ssize_t> shp; std::shared_ptr<T> buf;
+// an ndarray of element type T, whatever the flags of the array_t it is seen through: shape, byte strides, first element,
+// owner of the allocation
+template <typename T> class array_data {
+protected:
+    std::vector<ssize_t> shp, str; std::shared_ptr<T> buf; T *ptr = nullptr; ssize_t nalloc = 0;
+    void allocate(ssize_t n) {
+        if (c19::gil_released > 0) ++c19::alloc_without_gil;            // creating a Python object needs the GIL
+        nalloc = n; buf = std::shared_ptr<T>(static_cast<T *>(std::malloc(size_t(n) * sizeof(T))), std::free); ptr = buf.get(); }
+    template <typename... Ix> ssize_t checked_offset(Ix... ix) const {
+        if (ssize_t(sizeof...(Ix)) > ndim()) throw index_error("too many indices for an array");
+        ssize_t idx[] = {ssize_t(ix)..., 0}, o = 0;
+        for (size_t k = 0; k < sizeof...(Ix); ++k) {
+            if (idx[k] < 0 || idx[k] >= shp[k]) throw index_error("index out of bounds for axis");
+            o += idx[k] * str[k]; }
+        return o; }
 public:
     using value_type = T;
-    array_t() : array_t(std::vector<ssize_t>{0}) {}
-    array_t(std::vector<ssize_t> shape) : shp(std::move(shape)) {       // like numpy.empty(shape): uninitialised
-        if (c19::gil_released > 0) ++c19::alloc_without_gil;            // creating a Python object needs the GIL
-        buf = std::shared_ptr<T>(static_cast<T *>(std::malloc(size() * sizeof(T))), std::free); }
+    static std::vector<ssize_t> c_strides(const std::vector<ssize_t> &shape) {
+        std::vector<ssize_t> s(shape.size(), ssize_t(sizeof(T)));
+        for (size_t k = shape.size(); k-- > 1;) s[k - 1] = s[k] * shape[k];
+        return s; }
+    static std::vector<ssize_t> f_strides(const std::vector<ssize_t> &shape) {
+        std::vector<ssize_t> s(shape.size(), ssize_t(sizeof(T)));
+        for (size_t k = 1; k < shape.size(); ++k) s[k] = s[k - 1] * shape[k - 1];
+        return s; }
+    array_data() = default;
+    // numpy.empty(shape) with the given byte strides over a buffer of exactly nbase elements whose first logical
+    // element is base[first] -- how the harness builds views (a.T, a[:, ::2], a[:, ::-1], broadcast_to, ...)
+    array_data(std::vector<ssize_t> shape, std::vector<ssize_t> byte_strides, ssize_t nbase, ssize_t first)
+        : shp(std::move(shape)), str(std::move(byte_strides)) { allocate(nbase); ptr = buf.get() + first; }
     ssize_t ndim() const { return ssize_t(shp.size()); }
     ssize_t shape(ssize_t i) const { return shp[size_t(i)]; }           // pybind11 raises on i >= ndim; callers here never do
+    ssize_t strides(ssize_t i) const { return str[size_t(i)]; }
     const std::vector<ssize_t> &shape_vec() const { return shp; }
+    const std::vector<ssize_t> &strides_vec() const { return str; }
     ssize_t size() const { ssize_t n = 1; for (auto d : shp) n *= d; return n; }
-    const T *data() const { return buf.get(); }
-    T *mutable_data() { return buf.get(); }
+    ssize_t itemsize() const { return ssize_t(sizeof(T)); }
+    const T *data() const { return ptr; }
+    T *mutable_data() { return ptr; }
+    template <typename I, typename... Ix> const T *data(I i, Ix... ix) const {
+        return reinterpret_cast<const T *>(reinterpret_cast<const unsigned char *>(ptr) + checked_offset(i, ix...)); }
+    template <typename I, typename... Ix> T *mutable_data(I i, Ix... ix) {
+        return reinterpret_cast<T *>(reinterpret_cast<unsigned char *>(ptr) + checked_offset(i, ix...)); }
+    template <typename... Ix> const T &at(Ix... ix) const {
+        if (ssize_t(sizeof...(Ix)) != ndim()) throw index_error("index dimension mismatch");
+        return *data(ix...); }
+    template <typename... Ix> T &mutable_at(Ix... ix) {
+        if (ssize_t(sizeof...(Ix)) != ndim()) throw index_error("index dimension mismatch");
+        return *mutable_data(ix...); }
     template <ssize_t N> unchecked_ref<const T, N, false> unchecked() const {
-        unchecked_ref<const T, N, false> r{buf.get(), {}}; for (ssize_t k = 0; k < N; ++k) r.dim[k] = shp[size_t(k)]; return r; }
+        unchecked_ref<const T, N, false> r{reinterpret_cast<const unsigned char *>(ptr), {}, {}};
+        for (ssize_t k = 0; k < N; ++k) { r.dim[k] = shp[size_t(k)]; r.str[k] = str[size_t(k)]; } return r; }
     template <ssize_t N> unchecked_ref<T, N, true> mutable_unchecked() {
-        unchecked_ref<T, N, true> r{buf.get(), {}}; for (ssize_t k = 0; k < N; ++k) r.dim[k] = shp[size_t(k)]; return r; }
+        unchecked_ref<T, N, true> r{reinterpret_cast<unsigned char *>(ptr), {}, {}};
+        for (ssize_t k = 0; k < N; ++k) { r.dim[k] = shp[size_t(k)]; r.str[k] = str[size_t(k)]; } return r; }
+    // harness side: the whole allocation behind this array and whether two arrays share it
+    const T *base_data() const { return buf.get(); }
+    T *mutable_base_data() { return buf.get(); }
+    ssize_t base_size() const { return nalloc; }
+    bool same_buffer(const array_data &o) const { return buf.get() == o.buf.get() && ptr == o.ptr; }
+    // numpy's NPY_ARRAY_C_CONTIGUOUS / NPY_ARRAY_F_CONTIGUOUS
+    bool c_contiguous() const {
+        if (size() == 0) return true;
+        ssize_t sd = ssize_t(sizeof(T));
+        for (size_t k = shp.size(); k-- > 0;) if (shp[k] != 1) { if (str[k] != sd) return false; sd *= shp[k]; }
+        return true; }
+    bool f_contiguous() const {
+        if (size() == 0) return true;
+        ssize_t sd = ssize_t(sizeof(T));
+        for (size_t k = 0; k < shp.size(); ++k) if (shp[k] != 1) { if (str[k] != sd) return false; sd *= shp[k]; }
+        return true; }
+    // element by logical index (row-major counter over the shape), through the strides
+    const T &logical(ssize_t flat) const {
+        ssize_t o = 0;
+        for (size_t k = shp.size(); k-- > 0;) { o += (flat % shp[k]) * str[k]; flat /= shp[k]; }
+        return *reinterpret_cast<const T *>(reinterpret_cast<const unsigned char *>(ptr) + o); }
+};
+
+template <typename T, int Flags = array::forcecast> class array_t : public array_data<T> {
+    using base = array_data<T>;
+public:
+    static constexpr int flags = Flags;
+    array_t() : array_t(std::vector<ssize_t>{0}) {}
+    array_t(std::vector<ssize_t> shape) {                               // like numpy.empty(shape): uninitialised
+        this->str = (Flags & array::f_style) ? base::f_strides(shape) : base::c_strides(shape);
+        this->shp = std::move(shape);
+        this->allocate(this->size()); }
+    // the type caster for an argument whose dtype is already T
+    static array_t ensure(const array_data<T> &src, bool *copied = nullptr) {
+        const bool want_c = (Flags & array::c_style) != 0, want_f = !want_c && (Flags & array::f_style) != 0;
+        const bool ok = want_c ? src.c_contiguous() : want_f ? src.f_contiguous() : true;
+        if (copied) *copied = !ok;
+        if (ok) { array_t r{view_tag{}}; static_cast<base &>(r) = src; return r; }
+        array_t r{view_tag{}};
+        r.shp = src.shape_vec(); r.str = want_f ? base::f_strides(r.shp) : base::c_strides(r.shp);
+        r.allocate(r.size());
+        const ssize_t n = r.size();
+        for (ssize_t k = 0; k < n; ++k) const_cast<T &>(r.logical(k)) = src.logical(k);
+        return r; }
+private:
+    struct view_tag {};
+    explicit array_t(view_tag) {}
 };
 
 struct gil_scoped_release {
@@ -62,18 +166,42 @@ struct gil_scoped_release {
     gil_scoped_release(const gil_scoped_release &) = delete;
 };
 
+namespace c19 {
+template <typename X> struct is_array_t : std::false_type {};
+template <typename T, int F> struct is_array_t<array_t<T, F>> : std::true_type {};
+template <typename T> struct call_record { array_data<T> arg[2]; bool copied[2] = {false, false}; };   // what the kernel received
+template <typename T> struct registration {
+    std::string name; int flags_ret, flags_a, flags_b;
+    std::function<array_data<T>(const array_data<T> &, const array_data<T> &, call_record<T> *)> call;
+};
+}
+
 class module_ {                         // def() collects the registration table instead of creating Python callables
+    template <typename T> std::vector<c19::registration<T>> &table() {
+        if constexpr (std::is_same_v<T, float>) return f32; else return f64; }
 public:
-    template <typename T> using kernel = array_t<T, array::c_style | array::forcecast> (*)(
-        const array_t<T, array::c_style | array::forcecast> &, const array_t<T, array::c_style | array::forcecast> &);
-    std::vector<std::pair<std::string, kernel<float>>> f32;
-    std::vector<std::pair<std::string, kernel<double>>> f64;
+    std::vector<c19::registration<float>> f32;
+    std::vector<c19::registration<double>> f64;
     std::vector<std::string> other;     // registrations with a signature this stand-in does not know
-    template <typename F, typename... Extra> module_ &def(const char *name, F &&f, const Extra &...) {
-        if constexpr (std::is_convertible_v<F, kernel<float>>) f32.emplace_back(name, f);
-        else if constexpr (std::is_convertible_v<F, kernel<double>>) f64.emplace_back(name, f);
-        else other.emplace_back(name);
+    template <typename R, typename A, typename B, typename... Extra> module_ &def(const char *name, R (*f)(A, B), const Extra &...) {
+        using DA = std::decay_t<A>; using DB = std::decay_t<B>;
+        if constexpr (c19::is_array_t<R>::value && c19::is_array_t<DA>::value && c19::is_array_t<DB>::value) {
+            using T = typename R::value_type;
+            if constexpr (std::is_same_v<T, typename DA::value_type> && std::is_same_v<T, typename DB::value_type> &&
+                          (std::is_same_v<T, float> || std::is_same_v<T, double>)) {
+                table<T>().push_back({name, R::flags, DA::flags, DB::flags,
+                    [f](const array_data<T> &a, const array_data<T> &b, c19::call_record<T> *rec) -> array_data<T> {
+                        bool ca = false, cb = false;
+                        DA xa = DA::ensure(a, &ca); DB xb = DB::ensure(b, &cb);
+                        if (rec) { rec->arg[0] = xa; rec->arg[1] = xb; rec->copied[0] = ca; rec->copied[1] = cb; }
+                        R r = f(xa, xb);
+                        return r; }});
+                return *this;
+            }
+        }
+        other.emplace_back(name);
         return *this; }
+    template <typename F, typename... Extra> module_ &def(const char *name, F &&, const Extra &...) { other.emplace_back(name); return *this; }
     struct docproxy { template <typename X> docproxy &operator=(X &&) { return *this; } };
     docproxy doc() { return {}; }
 };
